@@ -203,3 +203,29 @@ func TestVerifC29Machine(t *testing.T) {
 		}
 	})
 }
+
+// TestVerifC29RegressionRepeatedAdd replays the shrunk failing cases of the
+// duplicate-source defect (fixed: see known_findings.txt).
+func TestVerifC29RegressionRepeatedAdd(t *testing.T) {
+	for _, drop := range []bool{false, true} {
+		rib := locRIB.New("c29")
+		mr := mergedlocrib.New(rib)
+		s0 := &c29Src{name: "s0"}
+		m := &c29Model{adv: make([][c29NRoutes]bool, 1)}
+		mr.AddRoute(s0, c29Route(0))
+		mr.AddRoute(s0, c29Route(0))
+		m.adv[0][0] = true
+		if msg := c29Check(m, rib); msg != "" {
+			t.Fatalf("after repeated add: %s", msg)
+		}
+		if drop {
+			mr.DropAllBySrc(s0)
+		} else {
+			mr.RemoveRoute(s0, c29Route(0))
+		}
+		m.adv[0][0] = false
+		if msg := c29Check(m, rib); msg != "" {
+			t.Fatalf("add s0 r0; add s0 r0; %s: %s", map[bool]string{false: "remove s0 r0", true: "drop s0"}[drop], msg)
+		}
+	}
+}
